@@ -2,6 +2,10 @@ import Splipy.Lemmas.C11Exec
 
 /-!
 # Histories of the executable model: invariant, isolation, predicted observables
+
+`exec` performs a `RawOp` literally (it can alias and write anywhere).  Everything here is about
+operations whose actions conform (`RawOp.conforming`) / that respect their contract
+(`RawOp.respects c`).
 -/
 
 namespace Splipy.Heap
@@ -12,95 +16,33 @@ theorem allocBuf_query (h : Heap) (d : List Int) : QueryStep h (allocBuf h d) :=
   ⟨rfl, rfl, [d], rfl⟩
 
 /-- The copying constructor respects the `fresh` contract. -/
-theorem allocObj_fresh {h : Heap} (w : WF h) (s : ObjSpec) : FreshStep h (allocObj h s) := by
-  refine ⟨_, _, _, rfl, rfl, rfl, ?_, ?_, ?_, ?_⟩
+theorem allocObj_fresh (h : Heap) (s : ObjSpec) : FreshStep h (allocObj h s) := by
+  refine ⟨_, _, _, rfl, rfl, rfl, ?_, ?_, ?_⟩
   · intro o ho
     simp only [List.mem_singleton] at ho
     subst ho
-    refine ⟨by simp, ?_⟩
+    refine ⟨⟨by simp, by simp [allocObj]⟩, ?_⟩
     intro r hr
     simp only [List.mem_range'] at hr
-    obtain ⟨k, _, rfl⟩ := hr
-    omega
+    obtain ⟨k, hk, rfl⟩ := hr
+    refine ⟨by omega, ?_⟩
+    simp [allocObj]; omega
   · intro r hr
     rw [List.mem_mapIdx] at hr
-    obtain ⟨k, _, rfl⟩ := hr
-    simp
+    obtain ⟨k, hk, rfl⟩ := hr
+    refine ⟨by simp, ?_⟩
+    simp [allocObj]; omega
   · intro i j a b hij hi hj
     have hi0 : i = 0 := by
       have := lt_of_getElem?_eq_some hi; simp at this; exact this
     have hj0 : j = 0 := by
       have := lt_of_getElem?_eq_some hj; simp at this; exact this
     omega
-  · refine ⟨?_, ?_, ?_⟩
-    · intro o ho
-      simp only [allocObj, List.mem_append, List.mem_singleton] at ho
-      rcases ho with ho | rfl
-      · have := w.cps_lt o ho; simp [allocObj]; omega
-      · simp [allocObj]
-    · intro o ho b hb
-      simp only [allocObj, List.mem_append, List.mem_singleton] at ho
-      rcases ho with ho | rfl
-      · have := w.bases_lt o ho b hb; simp [allocObj]; omega
-      · simp only [List.mem_range'] at hb
-        obtain ⟨k, hk, rfl⟩ := hb
-        simp [allocObj]; omega
-    · intro r hr
-      simp only [allocObj, List.mem_append] at hr
-      rcases hr with hr | hr
-      · have := w.knots_lt r hr; simp [allocObj]; omega
-      · rw [List.mem_mapIdx] at hr
-        obtain ⟨k, hk, rfl⟩ := hr
-        simp [allocObj]; omega
 
 theorem allocObj_length (h : Heap) (s : ObjSpec) : (allocObj h s).objs.length = h.objs.length + 1 := by
   simp [allocObj]
 
-/-! ## The invariant along executable steps -/
-
-theorem applyPrim_inv {h : Heap} (hi : Invariant h) (i : Nat) (p : Prim) : Invariant (applyPrim h i p) := by
-  cases ha : h.objs[i]? with
-  | none => rw [applyPrim_dangling ha]; exact hi
-  | some a => exact (applyPrim_inPlace hi.1 ha p).inv hi
-
-theorem applyProg_inv {h : Heap} (hi : Invariant h) (i : Nat) (prog : List Prim) : Invariant (applyProg h i prog) := by
-  unfold applyProg
-  induction prog generalizing h with
-  | nil => exact hi
-  | cons p ps ih => exact ih (applyPrim_inv hi i p)
-
-theorem allocObjs_inv {h : Heap} (hi : Invariant h) (ss : List ObjSpec) : Invariant (allocObjs h ss) := by
-  unfold allocObjs
-  induction ss generalizing h with
-  | nil => exact hi
-  | cons s ss ih => exact ih ((allocObj_fresh hi.1 s).inv hi)
-
-theorem applyProgs_inv {h : Heap} (hi : Invariant h) (progs : List (Nat × List Prim)) :
-    Invariant (progs.foldl (fun h p => applyProg h p.1 p.2) h) := by
-  induction progs generalizing h with
-  | nil => exact hi
-  | cons p ps ih => exact ih (applyProg_inv hi p.1 p.2)
-
-/-- Every executable step preserves the invariant, whatever the payload. -/
-theorem step_inv {h : Heap} (hi : Invariant h) (op : Op) : Invariant (step h op).1 := by
-  cases op with
-  | query args payload =>
-    cases payload with
-    | none => exact hi
-    | some d => exact ((allocBuf_query h d).fresh hi.1).inv hi
-  | fresh args news => exact allocObjs_inv hi news
-  | inPlace recv others prog rs => exact applyProg_inv hi recv prog
-  | inPlaceAll progs => exact applyProgs_inv hi progs
-
-theorem run_inv {h : Heap} (hi : Invariant h) (ops : List Op) : Invariant (run h ops) := by
-  unfold run
-  induction ops generalizing h with
-  | nil => exact hi
-  | cons op ops ih => exact ih (step_inv hi op)
-
-/-! ## Isolation along executable steps
-
-`Same h h' j` : handle `j` refers to the same object before and after, with the same observation. -/
+/-! ## `Same h h' j` : handle `j` refers to the same object before and after, with the same observation -/
 
 def Same (h h' : Heap) (j : Nat) : Prop :=
   ∀ b, h.objs[j]? = some b → h'.objs[j]? = some b ∧ observe h' b = observe h b
@@ -113,6 +55,13 @@ theorem Same.trans {h h' h'' : Heap} {j : Nat} (s1 : Same h h' j) (s2 : Same h' 
   obtain ⟨hb'', ho''⟩ := s2 b hb'
   exact ⟨hb'', ho''.trans ho'⟩
 
+/-! ## Conforming actions -/
+
+theorem applyPrim_inv {h : Heap} (hi : Invariant h) (i : Nat) (p : Prim) : Invariant (applyPrim h i p) := by
+  cases ha : h.objs[i]? with
+  | none => rw [applyPrim_dangling ha]; exact hi
+  | some a => exact (applyPrim_inPlace hi.1 ha p).inv hi
+
 theorem applyPrim_same {h : Heap} (hi : Invariant h) {i j : Nat} (hji : j ≠ i) (p : Prim) :
     Same h (applyPrim h i p) j := by
   cases ha : h.objs[i]? with
@@ -122,63 +71,181 @@ theorem applyPrim_same {h : Heap} (hi : Invariant h) {i j : Nat} (hji : j ≠ i)
     obtain ⟨h1, h2, _⟩ := (applyPrim_inPlace hi.1 ha p).isolation hi.1 hi.2 hji hb
     exact ⟨h1, h2⟩
 
-theorem applyProg_same {h : Heap} (hi : Invariant h) {i j : Nat} (hji : j ≠ i) (prog : List Prim) :
-    Same h (applyProg h i prog) j := by
-  unfold applyProg
-  induction prog generalizing h with
+theorem applyAct_inv {h : Heap} (hi : Invariant h) (i : Nat) {a : Act} (hc : a.conforming = true) :
+    Invariant (applyAct h i a) := by
+  cases a with
+  | prim p => exact applyPrim_inv hi i p
+  | aliasCps _ => simp [Act.conforming] at hc
+  | aliasBasis _ _ _ => simp [Act.conforming] at hc
+
+theorem applyAct_same {h : Heap} (hi : Invariant h) {i j : Nat} (hji : j ≠ i) {a : Act}
+    (hc : a.conforming = true) : Same h (applyAct h i a) j := by
+  cases a with
+  | prim p => exact applyPrim_same hi hji p
+  | aliasCps _ => simp [Act.conforming] at hc
+  | aliasBasis _ _ _ => simp [Act.conforming] at hc
+
+theorem applyActs_inv {h : Heap} (hi : Invariant h) (i : Nat) {acts : List Act}
+    (hc : acts.all Act.conforming = true) : Invariant (applyActs h i acts) := by
+  unfold applyActs
+  induction acts generalizing h with
+  | nil => exact hi
+  | cons a as ih =>
+    simp only [List.all_cons, Bool.and_eq_true] at hc
+    exact ih (applyAct_inv hi i hc.1) hc.2
+
+theorem applyActs_same {h : Heap} (hi : Invariant h) {i j : Nat} (hji : j ≠ i) {acts : List Act}
+    (hc : acts.all Act.conforming = true) : Same h (applyActs h i acts) j := by
+  unfold applyActs
+  induction acts generalizing h with
   | nil => exact Same.refl h j
-  | cons p ps ih => exact (applyPrim_same hi hji p).trans (ih (applyPrim_inv hi i p))
+  | cons a as ih =>
+    simp only [List.all_cons, Bool.and_eq_true] at hc
+    exact (applyAct_same hi hji hc.1).trans (ih (applyAct_inv hi i hc.1) hc.2)
 
-theorem allocObjs_same {h : Heap} (hi : Invariant h) (ss : List ObjSpec) (j : Nat) :
-    Same h (allocObjs h ss) j := by
-  unfold allocObjs
-  induction ss generalizing h with
+theorem applyWrites_inv {h : Heap} (hi : Invariant h) {ws : List (Nat × List Act)}
+    (hc : ws.all (fun w => w.2.all Act.conforming) = true) : Invariant (applyWrites h ws) := by
+  unfold applyWrites
+  induction ws generalizing h with
+  | nil => exact hi
+  | cons w ws ih =>
+    simp only [List.all_cons, Bool.and_eq_true] at hc
+    exact ih (applyActs_inv hi w.1 hc.1) hc.2
+
+theorem applyWrites_same {h : Heap} (hi : Invariant h) {ws : List (Nat × List Act)}
+    (hc : ws.all (fun w => w.2.all Act.conforming) = true) {j : Nat} (hj : ∀ w ∈ ws, j ≠ w.1) :
+    Same h (applyWrites h ws) j := by
+  unfold applyWrites
+  induction ws generalizing h with
   | nil => exact Same.refl h j
-  | cons s ss ih =>
-    have st := allocObj_fresh hi.1 s
-    have h1 : Same h (allocObj h s) j := by
-      intro b hb
-      obtain ⟨h1, h2, _⟩ := st.isolation hi.1 hb
-      exact ⟨h1, h2⟩
-    exact h1.trans (ih (st.inv hi))
+  | cons w ws ih =>
+    simp only [List.all_cons, Bool.and_eq_true] at hc
+    exact (applyActs_same hi (hj w (by simp)) hc.1).trans
+      (ih (applyActs_inv hi w.1 hc.1) hc.2 (fun v hv => hj v (by simp [hv])))
 
-theorem applyProgs_same {h : Heap} (hi : Invariant h) (progs : List (Nat × List Prim)) {j : Nat}
-    (hj : ∀ p ∈ progs, j ≠ p.1) : Same h (progs.foldl (fun h p => applyProg h p.1 p.2) h) j := by
-  induction progs generalizing h with
+theorem buildObj_inv {h : Heap} (hi : Invariant h) {n : ObjSpec × List Act}
+    (hc : n.2.all Act.conforming = true) : Invariant (buildObj h n) :=
+  applyActs_inv ((allocObj_fresh h n.1).inv hi) _ hc
+
+theorem buildObj_same {h : Heap} (hi : Invariant h) {n : ObjSpec × List Act}
+    (hc : n.2.all Act.conforming = true) (j : Nat) : Same h (buildObj h n) j := by
+  intro b hb
+  have hjl : j < h.objs.length := lt_of_getElem?_eq_some hb
+  have st := allocObj_fresh h n.1
+  have h1 : Same h (allocObj h n.1) j := by
+    intro b hb
+    obtain ⟨h1, h2, _⟩ := st.isolation hi.1 hb
+    exact ⟨h1, h2⟩
+  exact (h1.trans (applyActs_same (st.inv hi) (by omega) hc)) b hb
+
+theorem buildObjs_inv {h : Heap} (hi : Invariant h) {ns : List (ObjSpec × List Act)}
+    (hc : ns.all (fun n => n.2.all Act.conforming) = true) : Invariant (buildObjs h ns) := by
+  unfold buildObjs
+  induction ns generalizing h with
+  | nil => exact hi
+  | cons n ns ih =>
+    simp only [List.all_cons, Bool.and_eq_true] at hc
+    exact ih (buildObj_inv hi hc.1) hc.2
+
+theorem buildObjs_same {h : Heap} (hi : Invariant h) {ns : List (ObjSpec × List Act)}
+    (hc : ns.all (fun n => n.2.all Act.conforming) = true) (j : Nat) : Same h (buildObjs h ns) j := by
+  unfold buildObjs
+  induction ns generalizing h with
   | nil => exact Same.refl h j
-  | cons p ps ih =>
-    have h1 := applyProg_same hi (hj p (by simp)) p.2
-    exact h1.trans (ih (applyProg_inv hi p.1 p.2) (fun q hq => hj q (by simp [hq])))
+  | cons n ns ih =>
+    simp only [List.all_cons, Bool.and_eq_true] at hc
+    exact (buildObj_same hi hc.1 j).trans (ih (buildObj_inv hi hc.1) hc.2)
 
-/-- The handles an operation instance is allowed to write through. -/
-def Op.receivers : Op → List Nat
-  | .query _ _ => []
-  | .fresh _ _ => []
-  | .inPlace recv _ _ _ => [recv]
-  | .inPlaceAll progs => progs.map (·.1)
+/-! ## Operations -/
 
-/-- Isolation for every executable step: a handle that is not a receiver of the operation refers
-    to the same object and observes the same afterwards. -/
-theorem step_same {h : Heap} (hi : Invariant h) (op : Op) {j : Nat} (hj : j ∉ op.receivers) :
-    Same h (step h op).1 j := by
-  cases op with
-  | query args payload =>
-    cases payload with
-    | none => exact Same.refl h j
-    | some d =>
-      intro b hb
-      obtain ⟨h1, h2, _⟩ := ((allocBuf_query h d).fresh hi.1).isolation hi.1 hb
-      exact ⟨h1, h2⟩
-  | fresh args news => exact allocObjs_same hi news j
-  | inPlace recv others prog rs =>
-    have : j ≠ recv := by simpa [Op.receivers] using hj
-    exact applyProg_same hi this prog
-  | inPlaceAll progs =>
-    apply applyProgs_same hi progs
-    intro p hp hjp
-    apply hj
-    simp only [Op.receivers, List.mem_map]
-    exact ⟨p, hp, hjp.symm⟩
+theorem exec_fst (h : Heap) (op : RawOp) :
+    (exec h op).1 = (match op.ret with
+      | .newBuffer d => allocBuf (buildObjs (applyWrites h op.writes) op.news) d
+      | _ => buildObjs (applyWrites h op.writes) op.news) := by
+  unfold exec
+  cases op.ret <;> rfl
+
+theorem exec_snd (h : Heap) (op : RawOp) :
+    (exec h op).2 = (match op.ret with
+      | .none => .none
+      | .scalar => .scalar
+      | .newBuffer _ => .buffer (buildObjs (applyWrites h op.writes) op.news).bufs.length
+      | .bufferOf x => (match (buildObjs (applyWrites h op.writes) op.news).objs[x]? with
+                        | some a => .buffer a.cps | none => .none)
+      | .newObjects => .handles (List.range' (applyWrites h op.writes).objs.length op.news.length)
+      | .receiver => (match op.args with | r :: _ => .handles [r] | [] => .none)) := by
+  unfold exec
+  cases op.ret <;> rfl
+
+/-- **Every operation whose actions conform preserves the invariant**, whatever it writes, builds
+    or returns. -/
+theorem exec_inv {h : Heap} (hi : Invariant h) {op : RawOp} (hc : op.conforming = true) :
+    Invariant (exec h op).1 := by
+  simp only [RawOp.conforming, Bool.and_eq_true] at hc
+  have h2 := buildObjs_inv (applyWrites_inv hi hc.1) hc.2
+  rw [exec_fst]
+  cases op.ret with
+  | newBuffer d => exact (allocBuf_query _ d).fresh.inv h2
+  | none => exact h2
+  | scalar => exact h2
+  | bufferOf _ => exact h2
+  | newObjects => exact h2
+  | receiver => exact h2
+
+theorem respects_conforming {c : Contract} {op : RawOp} (hr : op.respects c = true) : op.conforming = true := by
+  simp only [RawOp.respects, Bool.and_eq_true] at hr
+  exact hr.1.1
+
+theorem respects_writes {c : Contract} {op : RawOp} (hr : op.respects c = true) :
+    ∀ w ∈ op.writes, w.1 ∈ op.receivers c := by
+  simp only [RawOp.respects, Bool.and_eq_true, List.all_eq_true, List.contains_iff_mem] at hr
+  exact hr.1.2
+
+/-- **Isolation for every operation that respects its contract**: a handle that is not a receiver
+    refers to the same object and observes the same afterwards. -/
+theorem exec_same {h : Heap} (hi : Invariant h) {c : Contract} {op : RawOp} (hr : op.respects c = true)
+    {j : Nat} (hj : j ∉ op.receivers c) : Same h (exec h op).1 j := by
+  have hc := respects_conforming hr
+  have hc' := hc
+  simp only [RawOp.conforming, Bool.and_eq_true] at hc'
+  have hw : ∀ w ∈ op.writes, j ≠ w.1 := fun w hw e => hj (e ▸ respects_writes hr w hw)
+  have s1 := applyWrites_same hi hc'.1 hw
+  have i1 := applyWrites_inv hi hc'.1
+  have s2 := s1.trans (buildObjs_same i1 hc'.2 j)
+  rw [exec_fst]
+  cases op.ret with
+  | newBuffer d =>
+    refine s2.trans ?_
+    intro b hb
+    obtain ⟨h1, h2, _⟩ := (allocBuf_query _ d).fresh.isolation (buildObjs_inv i1 hc'.2).1 hb
+    exact ⟨h1, h2⟩
+  | none => exact s2
+  | scalar => exact s2
+  | bufferOf _ => exact s2
+  | newObjects => exact s2
+  | receiver => exact s2
+
+theorem run_inv {h : Heap} (hi : Invariant h) {hist : List (Contract × RawOp)}
+    (hr : ∀ e ∈ hist, e.2.respects e.1 = true) : Invariant (run h hist) := by
+  unfold run
+  induction hist generalizing h with
+  | nil => exact hi
+  | cons e es ih =>
+    exact ih (exec_inv hi (respects_conforming (hr e (by simp)))) (fun x hx => hr x (by simp [hx]))
+
+/-- Isolation along a whole history: a handle through which no operation of the history is allowed
+    to write refers to the same object with the same observation at the end. -/
+theorem run_same {h : Heap} (hi : Invariant h) {hist : List (Contract × RawOp)}
+    (hr : ∀ e ∈ hist, e.2.respects e.1 = true) {j : Nat}
+    (hj : ∀ e ∈ hist, j ∉ e.2.receivers e.1) : Same h (run h hist) j := by
+  unfold run
+  induction hist generalizing h with
+  | nil => exact Same.refl h j
+  | cons e es ih =>
+    have hre := hr e (by simp)
+    exact (exec_same hi hre (hj e (by simp))).trans
+      (ih (exec_inv hi (respects_conforming hre)) (fun x hx => hr x (by simp [hx]))
+        (fun x hx => hj x (by simp [hx])))
 
 /-! ## The predicted observables -/
 
@@ -240,35 +307,21 @@ theorem wfB_sound {h : Heap} (hb : wfB h = true) : WF h := by
   simp only [wfB, Bool.and_eq_true, List.all_eq_true, decide_eq_true_eq] at hb
   exact ⟨fun o ho => (hb.1 o ho).1, fun o ho => (hb.1 o ho).2, hb.2⟩
 
-/-- The write set of a step is within the receivers of the operation. -/
-theorem writeSet_subset_receivers {h : Heap} (hi : Invariant h) (op : Op) :
-    ∀ j ∈ writeSet h (step h op).1, j ∈ op.receivers := by
+
+/-- The write set of an operation that respects its contract is within its receivers. -/
+theorem writeSet_subset_receivers {h : Heap} (hi : Invariant h) {c : Contract} {op : RawOp}
+    (hr : op.respects c = true) : ∀ j ∈ writeSet h (exec h op).1, j ∈ op.receivers c := by
   intro j hj
   simp only [writeSet, List.mem_filter, List.mem_range, bne_iff_ne, ne_eq] at hj
   obtain ⟨hjl, hne⟩ := hj
   apply Classical.byContradiction
   intro hnr
   apply hne
-  have hs := step_same hi op hnr
+  have hs := exec_same hi hr hnr
   unfold observeAt
   obtain ⟨b, hb⟩ : ∃ b, h.objs[j]? = some b := ⟨h.objs[j], by simp [hjl]⟩
   obtain ⟨h1, h2⟩ := hs b hb
   rw [hb, h1]; simp [h2]
-
-end Splipy.Heap
-
-namespace Splipy.Heap
-
-/-- Isolation along a whole history: a handle through which no operation of the history writes
-    refers to the same object with the same observation at the end. -/
-theorem run_same {h : Heap} (hi : Invariant h) (ops : List Op) {j : Nat}
-    (hj : ∀ op ∈ ops, j ∉ op.receivers) : Same h (run h ops) j := by
-  unfold run
-  induction ops generalizing h with
-  | nil => exact Same.refl h j
-  | cons op ops ih =>
-    exact (step_same hi op (hj op (by simp))).trans
-      (ih (step_inv hi op) (fun o ho => hj o (by simp [ho])))
 
 /-- The array returned by a `query` step is owned by no live object. -/
 theorem bufferSharers_allocBuf {h : Heap} (w : WF h) (d : List Int) :
@@ -287,5 +340,17 @@ theorem bufferSharers_allocBuf {h : Heap} (w : WF h) (d : List Int) :
     intro hm
     have := w.ownBufs_lt (List.mem_of_getElem? ha) hm
     omega
+
+
+/-- An operation that respects `query` or `fresh` writes through no handle and leaves the objects'
+    store as it was before building. -/
+theorem respects_no_writes {c : Contract} {op : RawOp} (hc : c = .query ∨ c = .fresh)
+    (hr : op.respects c = true) : op.writes = [] := by
+  have hw := respects_writes hr
+  cases hws : op.writes with
+  | nil => rfl
+  | cons w ws =>
+    have := hw w (by simp [hws])
+    rcases hc with rfl | rfl <;> simp [RawOp.receivers] at this
 
 end Splipy.Heap
